@@ -165,10 +165,6 @@ Definition s_task_ : str := [116;97;115;107;95]%N.
 
 (* RELATIVE_BACKUP_LOCATION after realpath *)
 Definition backups_path : path := [s_derivatives; s_remodel; s_backups].
-Definition backup_dir (b : name) : path := backups_path ++ [b].
-Definition backup_root (b : name) : path := backups_path ++ [b; s_backup_root].
-Definition backup_lock (b : name) : path := backups_path ++ [b; s_backup_lock].
-
 Definition slash : str := [ch_slash].
 Definition ch_dot : N := 46%N.
 
@@ -183,13 +179,25 @@ Fixpoint split_on (c : N) (s : str) : list str :=
            end
   end.
 
-(* BackupManager.get_file_key: '/'.join(get_path_components(root, file) + [basename]) *)
-Definition get_file_key (file : path) : str := join slash file.
-
 (* os.path.realpath(os.path.join(base, key)) for a relative key: empty and "."
    components vanish (".." and absolute keys are outside the modelled domain) *)
 Definition key_path (k : str) : path :=
   filter (fun c => negb (str_eqb c []) && negb (str_eqb c [ch_dot])) (split_on ch_slash k).
+
+
+(* A backup name is used as the API / CLI accept it (a string).  Every path built from it
+   goes through os.path.realpath(os.path.join(self.backups_path, backup_name, ...)), so
+   "b1", "b1/", "./b1", "b1/.", "b1//" all resolve to the same directory.  The model covers
+   every spelling that resolves to ONE directory entry of backups_path; nested names ("a/b"),
+   ".." and absolute names are outside the modelled domain. *)
+Definition name_path (b : name) : path := key_path b.
+Definition backup_dir (b : name) : path := backups_path ++ name_path b.
+Definition backup_root (b : name) : path := backup_dir b ++ [s_backup_root].
+Definition backup_lock (b : name) : path := backup_dir b ++ [s_backup_lock].
+
+(* BackupManager.get_file_key: '/'.join(get_path_components(root, file) + [basename]) *)
+Definition get_file_key (file : path) : str := join slash file.
+
 
 (* BackupManager.get_backup_path *)
 Definition get_backup_path (b : name) (file : path) : path :=
